@@ -35,6 +35,9 @@ Semantics of the subset (the translator's conventions):
     `all(c for v in l)` is `l.all`, `[v for v in l if c]` is `l.filter`, `[e for v in l]` is `l.map`,
     `sorted(l, key=lambda x: [..])` is `SrcLib.Sweep.pySortedBy` (stable insertion sort by Python's `<` on the list-valued keys);
   * `a > b` is written `b < a`, `a >= b` is `b ≤ a`; `l == [b, d]` is `==` of pairs (componentwise `&&`);
+  * lists are VALUES: `L.append(L[-1])` appends a copy, in the source it is the same list object.  The two agree as long as no
+    `extend` reaches a depth that has been copied; here every `extend` goes to `L[landscape_idx]` under the loop test
+    `L[landscape_idx][-1] != [np.inf, 0]`, and only depths that end in `[np.inf, 0]` are copied;
   * statements that are no-ops of the computation are NOT translated and stay in the skeleton text: calls of `verboseprint`
     and the guarded verification hook `if _VERIF_TRACE is not None: …`.
 What is not translated is pinned as text: `srcSkeleton_compute_landscape` (the method with every translated statement
@@ -602,7 +605,7 @@ class Tr:
             if not (isinstance(v.ty, tuple) and v.ty[0] == "list"):
                 raise Shape("len of a non-list")
             return E("%s.length" % par(v, 100), SN)
-        if isinstance(f, ast.Name) and f.id == "all" and len(n.args) == 1 and isinstance(n.args[0], ast.GeneratorExp):
+        if isinstance(f, ast.Name) and f.id == "all" and len(n.args) == 1 and not n.keywords and isinstance(n.args[0], ast.GeneratorExp):
             g = n.args[0]
             if len(g.generators) != 1 or g.generators[0].ifs or not isinstance(g.generators[0].target, ast.Name):
                 raise Shape("generator outside the subset: %s" % ast.unparse(n))
@@ -850,7 +853,7 @@ class Tr:
             return "%s_loop_%d" % (self.cfg["lean"], self.top.loopno[0]), None
         return nm[0], nm[1]
 
-    def loop_frame(self, s, body, after, loop_items, extra_reads):
+    def loop_frame(self, s, body, after, extra_reads):
         """(results, carried, invariants) of a loop statement, as Python names"""
         cfg = self.cfg
         asg = assigned(body, cfg) + (target_names(s.target) if isinstance(s, ast.For) else [])
@@ -878,11 +881,13 @@ class Tr:
         pat = tup([self.bind(n, self.ty(n)) for n in results])
         return MatchOpt("%s %s" % (name, " ".join(args)), pat, kk())
 
-    def exit_ret(self, sub, results):
-        missing = [n for n in results if n not in sub.env]
+    def exit_ret(self, results):
+        """the values a loop definition returns here; a name that is read after the loop but is not bound on this path (the
+        `for … break` search found nothing): `none`"""
+        missing = [n for n in results if n not in self.env]
         if missing:
             return Fail("%s not bound" % ", ".join(missing))
-        return Ret([sub.env[n] for n in results])
+        return Ret([self.env[n] for n in results])
 
     def fuel_arg(self, fuel_list):
         if fuel_list not in self.env:
@@ -897,13 +902,13 @@ class Tr:
         if fuel_list is None:
             raise Shape("no fuel is declared for the loop `%s`" % header)
         loop_items = [("expr", s.test), ("stmts", s.body)]
-        results, carried, inv = self.loop_frame(s, s.body, after, loop_items, expr_reads(s.test))
+        results, carried, inv = self.loop_frame(s, s.body, after, expr_reads(s.test))
         # a name first bound in the body cannot be read after the loop unless it is bound again first (a read of an unbound
         # name is refused where it stands): only names bound before the loop are returned
         results = [n for n in results if n in self.env]
         sub = self.sub(name, inv + carried)
-        sub.on_break = lambda: sub.exit_ret(sub, results)
-        exit_ir = sub.exit_ret(sub, results)
+        sub.on_break = lambda: sub.exit_ret(results)
+        exit_ir = sub.exit_ret(results)
         test = sub.expr(s.test)
         if test.cond is None:
             # truthiness of a list
@@ -926,11 +931,11 @@ class Tr:
         header = ast.unparse(s).split("\n")[0].rstrip(":")
         it = s.iter
         if isinstance(it, ast.Call) and isinstance(it.func, ast.Name) and it.func.id == "enumerate" and len(it.args) == 1 \
-                and isinstance(it.args[0], ast.Name) and isinstance(s.target, ast.Tuple) and len(s.target.elts) == 2 \
+                and not it.keywords and isinstance(it.args[0], ast.Name) and isinstance(s.target, ast.Tuple) and len(s.target.elts) == 2 \
                 and all(isinstance(e, ast.Name) for e in s.target.elts):
             return self.for_enumerate(s, header, it.args[0].id, kk, after)
         if isinstance(it, ast.Call) and isinstance(it.func, ast.Name) and it.func.id == "range" and len(it.args) == 1 \
-                and isinstance(s.target, ast.Name):
+                and not it.keywords and isinstance(s.target, ast.Name):
             return self.for_range(s, header, kk, after)
         raise Shape("loop outside the subset: %s" % header)
 
@@ -942,16 +947,16 @@ class Tr:
         if fuel_list is None:
             fuel_list = lst
         loop_items = [("stmts", s.body)]
-        results, carried, inv = self.loop_frame(s, s.body, after, loop_items, [lst])
+        results, carried, inv = self.loop_frame(s, s.body, after, [lst])
         carried = [n for n in carried if n not in (idx, item)]
         inv = [n for n in inv if n not in (idx, item)]
         if lst not in self.env or not (isinstance(self.ty(lst), tuple) and self.ty(lst)[0] == "list"):
             raise Shape("`%s`: `%s` is not a list" % (header, lst))
         sub = self.sub(name, inv + carried)
         i0 = sub.bind(idx, SN)
-        exit_ir = sub.exit_ret(sub, [n for n in results])
+        exit_ir = sub.exit_ret(results)
         it0 = sub.bind(item, self.ty(lst)[1])
-        sub.on_break = lambda: sub.exit_ret(sub, results)
+        sub.on_break = lambda: sub.exit_ret(results)
         body = sub.block(s.body, lambda: Tail("%s %s" % (name, " ".join([sub.env0[n] for n in inv] + ["fuel", "(%s + 1)" % i0]
                                                                          + [sub.env[n] for n in carried]))), loop_items + after)
         lines = ["  match %s[%s]? with" % (sub.env0[lst], i0), "  | none =>"] + render(exit_ir, "    ") + ["  | some %s =>" % it0] \
@@ -972,18 +977,18 @@ class Tr:
         if self.lst_mutated_iter(s):
             raise Shape("`%s`: the body changes what the range was computed from" % header)
         loop_items = [("stmts", s.body)]
-        results, carried, inv = self.loop_frame(s, s.body, after, loop_items, [])
+        results, carried, inv = self.loop_frame(s, s.body, after, [])
         carried = [x for x in carried if x != var]
         inv = [x for x in inv if x != var]
         results = [x for x in results if x != var]
         results = [x for x in results if x in self.env]
         sub = self.sub(name, inv + carried)
-        exit_ir = sub.exit_ret(sub, results)
+        exit_ir = sub.exit_ret(results)
         if var == "_":
             v0 = "_"
         else:
             v0 = sub.bind(var, SN)
-        sub.on_break = lambda: sub.exit_ret(sub, results)
+        sub.on_break = lambda: sub.exit_ret(results)
         body = sub.block(s.body, lambda: Tail("%s %s" % (name, " ".join([sub.env0[x] for x in inv] + ["rest"] + [sub.env[x] for x in carried]))),
                          loop_items + after)
         lines = ["  match range with", "  | [] =>"] + render(exit_ir, "    ") + ["  | %s :: rest =>" % v0] + render(body, "  ")
@@ -1010,16 +1015,12 @@ def find_method(tree, qual):
 
 
 def pick_region(body, cfg):
-    """the consecutive top-level statements first..last (texts of their first lines)"""
-    heads = [ast.unparse(s).split("\n")[0] for s in body]
-    if heads.count(cfg["first"]) != 1:
-        raise Shape("expected exactly one top-level statement `%s`" % cfg["first"])
-    i = heads.index(cfg["first"])
-    if cfg["last"] is None:
-        return body[i:]
-    if cfg["last"] not in heads[i:]:
-        raise Shape("statement `%s` not found after `%s`" % (cfg["last"], cfg["first"]))
-    return body[i:i + heads[i:].index(cfg["last"]) + 1]
+    """the translated top-level statements of a target: the unique top-level `if` whose test mentions `cfg['anchor_if']` (the
+    trailing-infinite-bar step), or everything behind it"""
+    hits = [i for i, s in enumerate(body) if isinstance(s, ast.If) and cfg["anchor_if"] in ast.unparse(s.test)]
+    if len(hits) != 1:
+        raise Shape("expected exactly one top-level `if` whose test mentions `%s`" % cfg["anchor_if"])
+    return body[hits[0] + 1:] if cfg["region"] == "behind" else [body[hits[0]]]
 
 
 def skeleton(body, translated, kept):
@@ -1116,10 +1117,11 @@ def list_ind(f):
 
 
 COMMON = dict(file="sweep", func="PersLandscapeExact.compute_landscape", pyparams=["self", "verbose"],
-              skip_calls=("verboseprint",), skip_if_tests=("_VERIF_TRACE is not None",))
+              skip_calls=("verboseprint",), skip_if_tests=("_VERIF_TRACE is not None",),
+              anchor_if="np.inf")             # the top-level `if … np.inf …:` separates the two translated regions
 
 TARGETS = [
-    dict(COMMON, lean="trailing_inf", first="if A[-1][1] == np.inf:", last="if A[-1][1] == np.inf:",
+    dict(COMMON, lean="trailing_inf", region="the_if",
          params=[("A", LOP_)], ret=["A"], loops={},
          doc="`if A[-1][1] == np.inf: A.pop(-1)` on a diagram whose deaths may be infinite (`none` = `np.inf`)",
          obligations=[
@@ -1130,7 +1132,7 @@ TARGETS = [
               "by\n  rw [src_trailing_inf_eq_ref]; exact PersimVerif.SrcBridge.Sweep.trailing_inf_eq_model A",
               "only the LAST row is looked at; an empty diagram raises (`A[-1]`): the model's `dropTrailingInf` (`none` = the model's "
               "`Err.indexError`)")]),
-    dict(COMMON, lean="compute_landscape", first="landscape_idx = 0", last=None,
+    dict(COMMON, lean="compute_landscape", region="behind",
          params=[("A", LP_)], ret=["self.max_depth", "self.critical_pairs"],
          # loop header -> (name of its definition, work list whose length + 1 is the fuel at loop entry)
          loops={"while A": ("outer_loop", "A"),
@@ -1140,7 +1142,7 @@ TARGETS = [
                 "for _ in range(duplicate)": ("shortcut_loop", None),
                 "for i in range(len(A))": ("ind_loop", None),
                 "for j in range(len(A_i))": ("cnt_loop", None)},
-         doc="`compute_landscape` from `landscape_idx = 0` to its end, on the list `A` of finite bars (after the trailing-infinite-bar step): "
+         doc="`compute_landscape` behind the trailing-infinite-bar step (from `landscape_idx = 0` to the end), on the list `A` of finite bars: "
              "the values written to `self.max_depth`, `self.critical_pairs`",
          obligations=[
              ("src_shortcut_loop_eq_ref", "", "∀ (l : List Nat) (landscape_idx : Nat) (L : List (List (XR α × α))),\n"
@@ -1333,7 +1335,7 @@ def header(key):
         "    Model/Landscape.lean on every list of finite bars over a linear ordered field (inductions over the fuel in\n"
         "    Lemmas/SrcBridgeSweep.lean: the source's sentinels / `L[landscape_idx]` / `L.append(L[-1])` against the model's\n"
         "    `cur` accumulator / `List.replicate`; the index loops against `popFirst`, `findIdx?`, `countP`);\n"
-        "    `src_outer_loop_eq_model`: the loops alone, for every `α` with a reflexive `==`;\n"
+        "    `src_outer_loop_eq_model`: the loops alone, for every `α` in which `0 == 0` holds;\n"
         "    `src_trailing_inf_eq_model`: the trailing-infinite-bar statement is the model's `dropTrailingInf`;\n"
         "  * text pins: `src_compute_landscape_skeleton`, `src_PersLandscapeExact_compute_landscape_signature`, `src_sweep_bindings`.\n"
         "Between the two translated regions the model has `finiteBars` (every remaining death finite: the property's domain), which is\n"
@@ -1374,7 +1376,9 @@ def render_file(key, root):
             err = "%s: %s" % (type(e).__name__, e)
     for cfg in TARGETS:
         f = cfg["lean"]
-        o.append("/-! ### `%s`  (from `%s` of %s, statements from `%s`) -/" % (f, cfg["func"], py, cfg["first"]))
+        o.append("/-! ### `%s`  (from `%s` of %s, %s) -/" % (
+            f, cfg["func"], py, "the statements behind the top-level `if … np.inf …:`" if cfg["region"] == "behind"
+            else "the top-level statement `if … np.inf …:`"))
         o.append("section")
         o.append("variable {α : Type} " + VARS + "\n")
         e = err if err is not None else (res[f] if isinstance(res.get(f), str) else None)
